@@ -51,6 +51,8 @@ type Val struct {
 	btyp     types.Type
 	fn       *ssa.Function
 	bindings []*Val
+	mapNonNil bool  // the map held in this location stores only non-nil values (declared field invariant)
+	guard    string // lock identity that must be held to use this location / map (guardedby)
 }
 
 type State struct {
@@ -129,6 +131,7 @@ type Unit struct {
 	axiomsUsed  []string
 	globalInvsUsed []string
 	alloc0      string
+	locksUsed   bool
 }
 
 func (u *Unit) fresh(prefix string) string {
